@@ -283,3 +283,49 @@ CONTRACTS[GP + 'GraphProcessor.get_graph@imputation-tail'] = dict(
     modifies=[],
     no_frame=True,
 )
+
+# ---- segment of GraphProcessor.get_graph: values of the design-variable nodes that exist (C16) ----------------------
+CLASSES['GraphProcessor'].update({'design_variable_nodes': 'List[Ref[DesignVariableNode]]'})
+CLASSES.setdefault('DSG', {}).update({'des_var_nodes': 'List[Ref[DesignVariableNode]]'})
+DVN = 'self.design_variable_nodes'
+IDX = 'idx_map[node_map[self.design_variable_nodes[j]][0]]'
+DV_OK2 = ('(n.bounds is None or n.options is None) and implies(n.bounds is not None, n.bounds[0] < n.bounds[1]) and '
+          'implies(n.options is not None, len(n.options) >= 1) and (n.bounds is not None or n.options is not None)')
+IN_DOM = ('ite(n.options is not None, is_int(v) and 0 <= v and v <= len(n.options) - 1, n.bounds[0] <= v and v <= n.bounds[1])')
+CONTRACTS[GP + 'GraphProcessor.get_graph@design-variable-values'] = dict(
+    properties=['C16'],
+    types={'self': 'Ref[GraphProcessor]', 'des_var_values': 'List[Real]', 'create': 'Bool'},
+    start_at='if np.any(dv_node_existence):',
+    stop_before='is_active = [used_value is not None',
+    live={'dv_node_existence': 'List[Bool]', 'graph_instance': 'Optional[Ref[DSG]]', 'node_map': 'Dict[Ref,Tuple[Ref[DesVar],Int]]',
+          'idx_map': 'Dict[Ref,Int]', 'used_values': 'List[Optional[Real]]'},
+    post_locals=['used_values'],
+    defs={'dvok': (('n',), DV_OK2), 'indomain': (('n', 'v'), IN_DOM)},
+    requires={
+        'one-flag-per-node': f'len(dv_node_existence) == len({DVN})',
+        'nodes-well-formed': f'forall(j, 0, len({DVN}), dvok({DVN}[j]))',
+        'every-node-has-a-variable': f'forall(j, 0, len({DVN}), {DVN}[j] in node_map and node_map[{DVN}[j]][0] in idx_map and 0 <= {IDX} and {IDX} < len(des_var_values) and {IDX} < len(used_values))',
+        'variable-kind-matches-node': f'forall(j, 0, len({DVN}), node_map[{DVN}[j]][0].is_discrete == ({DVN}[j].options is not None))',
+        'distinct-nodes-distinct-variables': f'forall(a, 0, len({DVN}), forall(b, 0, len({DVN}), implies(a != b, idx_map[node_map[{DVN}[a]][0]] != idx_map[node_map[{DVN}[b]][0]])))',
+        'instance-constraints-well-formed': 'implies(graph_instance is not None, forall(c, 0, len(graph_instance._choice_constraints), forall(q, 0, len(graph_instance._choice_constraints[c].nodes), dvok(graph_instance._choice_constraints[c].nodes[q]))))',
+    },
+    calls={
+        'graph_instance.copy': dict(params=[], returns='Ref[DSG]', modifies=[], assumed=True,
+                                    ensures=['result._choice_constraints == old(graph_instance)._choice_constraints']),
+        'graph_instance.set_des_var_value': 'adsg_core/graph/adsg.py:DSG.set_des_var_value',
+        'graph_instance.des_var_value': dict(params=['node'], returns='Optional[Real]', modifies=[], receiver='gi',
+                                             ensures=['result == ite(node in gi._des_var_values, gi._des_var_values[node], None)']),
+    },
+    loops={'for i_dv, des_var_node in enumerate(self.design_variable_nodes)': dict(index='k', invariant={
+        'len': 'len(used_values) == len(old(used_values))',
+        'existing-so-far-have-in-domain-values': f'forall(j, 0, k, implies(dv_node_existence[j], used_values[{IDX}] is not None and indomain({DVN}[j], used_values[{IDX}])))',
+        'instance-constraints-still-well-formed': 'implies(graph_instance is not None, forall(c, 0, len(graph_instance._choice_constraints), forall(q, 0, len(graph_instance._choice_constraints[c].nodes), dvok(graph_instance._choice_constraints[c].nodes[q]))))',
+    })},
+    may_raise=['RuntimeError', 'ValueError'],
+    ensures={
+        'every-existing-node-reports-an-in-domain-value': ('property',
+            f'forall(j, 0, len({DVN}), implies(dv_node_existence[j], final_used_values[{IDX}] is not None and indomain({DVN}[j], final_used_values[{IDX}])))'),
+    },
+    modifies=[],
+    no_frame=True,
+)
